@@ -607,6 +607,42 @@ def c06_worker(job):
             planted = len(extra)
             case.meta['records'] = recs
         out['stats']['planted_i_to_l_records'] = planted
+        if rng.random() < 0.7:
+            # two SNVs on ADJACENT bases inside a circRNA (they share a haplotype only as the merged
+            # pair): the records reach the circRNA graph through the in-memory pool filter, whose
+            # result must not depend on set iteration order (hash seed, worker)
+            with gen_ref.quiet():
+                genome, anno, _ = gen_ref.load_reference(case)
+            circs_ = [r for r in recs if r.__class__ is CircRNAModel]
+            rng.shuffle(circs_)
+            for c_ in circs_[:2]:
+                try:
+                    pos_ = gen_ref.circ_positions(anno, c_.transcript_id, c_, margin=3)
+                except Exception:   # noqa
+                    pos_ = []
+                pos_ = [q for q in pos_ if q + 1 in pos_]
+                if not pos_:
+                    continue
+                q_ = rng.choice(pos_)
+                pair_ = []
+                for qq in (q_, q_ + 1):
+                    try:
+                        g_ = anno.coordinate_transcript_to_genomic(qq, c_.transcript_id)
+                        gm_ = anno.genes[anno.transcripts[c_.transcript_id].transcript.gene_id]
+                        st_ = anno.coordinate_genomic_to_gene(g_, gm_.gene_id if hasattr(gm_, 'gene_id') else
+                                                              anno.transcripts[c_.transcript_id].transcript.gene_id)
+                        ref_ = str(gm_.get_gene_sequence(genome[gm_.chrom]).seq[st_:st_ + 1])
+                        rec_ = gen_ref.make_snv(anno, genome, c_.transcript_id, qq,
+                                                rng.choice([b for b in 'ACGT' if b != ref_]))
+                    except Exception:   # noqa
+                        rec_ = None
+                    if rec_ is not None:
+                        pair_.append(rec_)
+                have_ = {(getattr(r, 'transcript_id', None), r.id) for r in recs}
+                if len(pair_) == 2 and not any((p_.transcript_id, p_.id) in have_ for p_ in pair_):
+                    recs = recs + pair_
+                    case.meta['records'] = recs
+                    out['stats']['adjacent_snv_pair_in_circrna'] = out['stats'].get('adjacent_snv_pair_in_circrna', 0) + 1
         if rng.random() < 0.6:
             # a CHAIN of fusions (B -> C with the donor breakpoint in an intron of B, A -> B with A in
             # front of B): B's records are loaded twice in one run — whatever a route through the
